@@ -25,6 +25,10 @@ def build(ctx):
         T = M.envelope(M.md("root", 3, dl), (0,))
         for name in names:
             payloads = [M.md("key_mgr", 1, {"pkg_mgr": M.delegation((0,), 1)}), {"name": "pkg", "delegations": {"x": 1}}, M.md("root", 4, {"root": M.delegation((1, 2), 1)})]
+            if rn in ("A", "F"):
+                # payloads that LOOK like delegating metadata (type, delegations) but are not well formed: arbitrary signed content, no type test
+                payloads += [{"type": "key_mgr", "delegations": {}, "version": 1}, {"type": "root", "delegations": {"x": 1}, "expiration": "never"},
+                             M.md("root", 0, {}), M.md("key_mgr", 1, {}, expiration=Ellipsis), M.md("root", 2, {}, spec=5)]
             if isinstance(name, str) and name in M.SUPPORTED:
                 payloads.append(M.md(name, 1, {}))
             for pl in payloads:
